@@ -13,7 +13,7 @@ import tflsum
 import vlib
 
 FAMS = ["mixed_cpu", "ew_dag", "conv_chain", "diamond", "ew_dag", "single", "mixed_cpu", "lut_heavy", "conv_chain_big", "unsupported",
-        "ew_dag", "multi_custom", "multi_subgraph"]
+        "ew_dag", "multi_custom", "multi_subgraph", "lstm"]
 ELEM = {"int8": 1, "uint8": 1, "int16": 2, "int32": 4, "float32": 4, "int64": 8, "bool": 1, "float16": 2}
 AREA_COL = {"SRAM": "sram_memory_used", "DRAM": "dram_memory_used", "On-chip Flash": "on_chip_flash_memory_used",
             "Off-chip Flash": "off_chip_flash_memory_used"}
@@ -117,6 +117,9 @@ def build_case(r, art):
     for k in range(1, len(sgs)):       # subgraphs no operator invokes: on their own, after everything else
         if k not in walked:
             walk(k, 0)
+    # a variable tensor (state kept between invocations, e.g. of an LSTM) is live during the whole inference - and from
+    # one inference to the next: nothing else may ever share its bytes
+    tens = [(t[0], t[1], 0, clock[0]) + tuple(t[4:]) if sgs[t[5]]["tensors"][t[4]].get("variable") else t for t in tens]
     npu = [(k, op) for k, g in enumerate(sgs) for op in g["operators"] if is_npu(op)]
     has_scratch = 1 if npu else 0
     s_off = s_size = 0
